@@ -36,8 +36,25 @@ Fixpoint addr_go (inseg : bool) (l : list ascii) : bool :=
   end.
 Definition valid_address (s : string) : bool := addr_go false (chars s).
 
+(* the token is an ASSET only if no earlier lexer rule matches the same text: NUMBER [0-9]+ and
+   PORTION [0-9]+ '/' [0-9]+ come first in NumScript.g4 *)
+Definition is_number_or_portion (l : list ascii) : bool :=
+  let (ds, rest) := span is_digit l in
+  match ds, rest with
+  | [], _ => false
+  | _, [] => true
+  | _, c :: r => is_char 47 c && (let (ds2, rest2) := span is_digit r in
+                                  match rest2 with [] => true | _ => false end)
+  end.
+(* "//" at the start opens a LINE_COMMENT; "12/" followed by " 5" (as in a monetary literal) lexes as the
+   PORTION "12/ 5" (optional blanks around '/'), so digits followed by a final '/' are excluded as well *)
+Definition starts_comment (l : list ascii) : bool :=
+  match l with c1 :: c2 :: _ => is_char 47 c1 && is_char 47 c2 | _ => false end.
 Definition lexer_asset (s : string) : bool :=
-  match chars s with [] => false | l => forallb is_lex_asset l end.
+  match chars s with
+  | [] => false
+  | l => forallb is_lex_asset l && negb (is_number_or_portion l) && negb (starts_comment l)
+  end.
 
 Definition len_between (lo hi : nat) (l : list ascii) : bool :=
   Nat.leb lo (List.length l) && Nat.leb (List.length l) hi.
